@@ -89,6 +89,23 @@ func (x *Exec) goOfCol(st *State, col Term, t types.Type) (Value, bool) {
 	return VScalar{optVal(col)}, true
 }
 
+// recordFromRowNoAssume is recordFromRow for a row that may be absent: the
+// non-NULL facts of a successful Scan are only assumed under presence.
+func (x *Exec) recordFromRowNoAssume(st *State, recT types.Type, table *Table, row Term, cols []string) (Value, error) {
+	n := len(st.pc)
+	v, err := x.recordFromRow(st, recT, table, row, cols)
+	if err != nil {
+		return nil, err
+	}
+	added := append([]Term(nil), st.pc[n:]...)
+	st.pc = st.pc[:n]
+	present := rowPresent(table.Name, row)
+	for _, a := range added {
+		st.assume(Implies(present, a))
+	}
+	return v, nil
+}
+
 // recordFromRow builds a *XRecord object holding the given columns of row.
 func (x *Exec) recordFromRow(st *State, recT types.Type, table *Table, row Term, cols []string) (Value, error) {
 	stt := recT.Underlying().(*types.Struct)
